@@ -92,8 +92,8 @@ PROPS = {
         'assumptions': _hist_assumptions,
     },
     'C05': {
-        'families': ['cycle'],
-        'fields': {'cycle': ['b1', 'b2']},
+        'families': ['cycle', 'hist'],
+        'fields': {'cycle': ['b1', 'b2'], 'hist': None},
         'nontrivial': r'b1=\[',
         'rule': 'cycle family: every buffer of <=3 (quick) / <=4 (thorough) operations over 2 watchers x batchable x cost{0,1,2}, '
                 'batch limits {0,0},{1,2},{2,1},{2,0}, every allowance 0..total+1 and no limiter, v1 and v2 (slots none/1/2), '
